@@ -8,3 +8,9 @@ import Norad.Props.C10
 #print axioms Kern.upconvert_perm_independent
 #print axioms Kern.features_order_independent
 #print axioms Kern.features_with_order_list
+#print axioms PlistM.written_plists_sorted
+#print axioms PlistM.arrays_not_visited
+#print axioms PlistM.written_lib_function_of_map
+#print axioms PlistM.written_lib_equal_fonts_counterexample
+#print axioms PlistM.store_save_order_independent
+#print axioms PlistM.store_save_order_dependent_counterexample
